@@ -8,7 +8,34 @@ def card_of(i):
     return Card(i % 13 + 2, Suit(i // 13 + 1))
 
 
+def replay_hand(c):
+    """a hand-codec counterexample at file level: write one board holding the hand, read it, play a card from the board that
+    was read (the play engine removes cards in place), read the same text again"""
+    from bridge_env import Hands
+    from bridge_env.data_handler.pbn_handler.parser import PbnParser
+    hand = {card_of(i) for i in c['cards']}
+    rest = [i for i in range(52) if i not in set(c['cards'])]
+    others = [{card_of(i) for i in rest[k::3]} for k in range(3)]
+    deal = Hands(set(hand), *[set(o) for o in others])
+    text = f'[Board "1"]\n[Dealer "N"]\n[Vulnerable "None"]\n[Deal "{deal.to_pbn()}"]\n'
+    bad = []
+    first = PbnParser().parse_board_settings(io.StringIO(text))
+    if len(first) != 1 or first[0].hands != deal:
+        bad.append('the board is not read back as written')
+    else:
+        for h in (first[0].hands.north, first[0].hands.east):
+            if h:
+                h.remove(next(iter(h)))          # what playing a card from the parsed board does
+        again = PbnParser().parse_board_settings(io.StringIO(text))
+        if len(again) != 1 or again[0].hands != deal:
+            bad.append('after a card was played from the board read first, reading the same file again gives a different deal '
+                       f'(north holds {len(again[0].hands.north) if again else "?"} cards)')
+    return bool(bad), f'one board with north = {sorted(map(str, hand))}: ' + '; '.join(bad)
+
+
 def replay(c):
+    if c.get('kind') == 'pbn_hand':
+        return replay_hand(c)
     if c.get('kind') == 'settings':
         import r_C12
         return r_C12.replay_settings(c)
